@@ -85,7 +85,7 @@ mutual
 def Ty.wf : Ty → Bool
   | .prim p => p.wf
   | .struct _ _ fs => fs.wf
-  | .tpm2bBytes _ _ szP _ elem => szP.wf && decide (0 < szP.size) && elem.wf
+  | .tpm2bBytes _ _ szP _ elem => szP.wf && decide (0 < szP.size) && elem.wf && decide (elem.size = 1)
   | .tpm2b _ _ szP _ body => szP.wf && decide (0 < szP.size) && body.wf
   | .union _ arms => arms.wf
   | .bad _ => true
@@ -270,7 +270,7 @@ theorem decode_sound : (t : Ty) → t.wf = true → ∀ (path : Path) (sel : Opt
     · simpa [emitM, emit] using c1
   | .tpm2bBytes name szName szP bufName elem, hwf, path, sel, s, s', v, hfresh, h => by
     simp only [Ty.wf, Bool.and_eq_true, decide_eq_true_eq] at hwf
-    obtain ⟨⟨hwsz, hszpos⟩, hwel⟩ := hwf
+    obtain ⟨⟨⟨hwsz, hszpos⟩, hwel⟩, _⟩ := hwf
     simp only [decode] at h
     obtain ⟨nv, s1, h1, h⟩ := bind_ok_inv h
     obtain ⟨nb, ne, hsz, i1, p1, o1, c1⟩ := readPrim_sound hwsz h1
